@@ -1141,8 +1141,17 @@ func runC14(c *Ctx, out string) {
 		}
 	}
 	// the calls themselves, for the model tie (answers only)
+	quickRow := map[string]bool{}
+	for _, r := range rows {
+		if r.Status == "ok" && r.SatNs < 1e9 && r.ExtNs < 1e9 {
+			quickRow[fmt.Sprintf("%s/%d", r.Family, r.N)] = true
+		}
+	}
 	for _, f := range families {
 		for _, n := range ns[:2] {
+			if !quickRow[fmt.Sprintf("%s/%d", f.name, n)] {
+				continue // the child did not finish this call quickly: do not repeat it in this process
+			}
 			e, a := f.mk(n)
 			for _, l := range []string{"S " + hx(e) + " " + hxl(a), "X " + hx(e)} {
 				cc.memo[l] = evalLine(l)
